@@ -240,12 +240,15 @@ def apply_op(d, defn, op):
         d.message_from_client(comp_codec.build(op[1]))
 
 
-def run_ops(defn, ops, extra=None):
+def run_ops(defn, ops, extra=None, loghandler=False):
     """-> (encoded device, [per-op observation dict])"""
+    import logging
+
     import indi.message
     from indi.routing import Client, Router
 
     published, log, tasklog = [], [], []
+    notices = []
 
     class RecRouter:
         """records what the driver hands to its router (no BLOB policy in the way)"""
@@ -253,13 +256,24 @@ def run_ops(defn, ops, extra=None):
         def register_device(self, device):
             pass
 
-        def process_message(self, msg, sender=None):
-            published.append(msg)
+        def process_message(self, msg=None, sender=None, message=None):
+            m = msg if msg is not None else message
+            if sender is None and type(m).__name__ == "Message" and loghandler:
+                notices.append(m)          # a log record forwarded by indi.logging.Handler
+            else:
+                published.append(m)
 
     old_now = indi.message.now
     indi.message.now = lambda: "T"
+    handler = None
     try:
         router = RecRouter()
+        if loghandler:
+            # the deployment of the shipped example servers: log records of the library become <message> notices
+            import indi.logging as ilog
+            logging.disable(logging.NOTSET)
+            handler = ilog.Handler(router, level=logging.WARNING)
+            logging.getLogger("indi").addHandler(handler)
         d = build_driver(defn, log, tasklog, router)
         dev_line = enc_device(d, defn)
         obs = []
@@ -283,6 +297,9 @@ def run_ops(defn, ops, extra=None):
         return d, dev_line, obs
     finally:
         indi.message.now = old_now
+        if handler is not None:
+            logging.getLogger("indi").removeHandler(handler)
+            logging.disable(logging.CRITICAL)
 
 
 def enc_obs(o):
@@ -292,7 +309,9 @@ def enc_obs(o):
 
 def run_impl(case, outcome):
     defn, ops = case["def"], case["ops"]
-    d, dev_line, obs = run_ops(defn, ops)
+    d, dev_line, obs = run_ops(defn, ops, loghandler=bool(case.get("loghandler")))
+    if case.get("loghandler"):
+        outcome.count("with-log-handler")
     for op, o in zip(ops, obs):
         outcome.count("op:" + op[0])
         if o["exc"]:
@@ -599,7 +618,7 @@ def fault_catalogue(defn):
     allv = [(g, v) for g in defn["groups"] for v in g["vectors"]]
     for g, v in allv:
         for mkind in ("text", "number", "switch", "blob"):          # includes every kind mismatch and light targets
-            for ename in ("E0", "E1", "nope", "", None):
+            for ename in ("E0", "E1", "nope", "", None, "GAIN_%", "%s", "%(x)s"):
                 for text in texts[mkind]:
                     for size in (sizes if mkind == "blob" and text == texts["blob"][0] else ["3"]):
                         # format strings a client may send: the protocol's compressed-payload suffix `.z` among them
@@ -657,6 +676,13 @@ def gen_c12(rng, tier):
             ops.append(["c", f])
         ops.append(["c", rng.choice(valid)])
         yield {"op": "dev", "def": defn, "ops": ops, "oracles": ["C12"]}
+    # the same faults with the log-forwarding handler of the example servers installed (every refusal is logged)
+    for i in range(0, len(faults), chunk * 2):
+        ops = []
+        for f in faults[i:i + chunk * 2:2]:
+            ops.append(["c", f])
+        ops.append(["c", rng.choice(valid)])
+        yield {"op": "dev", "def": defn, "ops": ops, "oracles": ["C12"], "loghandler": True}
     defn_h = five_kind_definition(rng, handlers=True)
     for i in range(0, len(faults), chunk * 4):
         yield {"op": "dev", "def": defn_h, "ops": [["c", f] for f in faults[i:i + chunk * 4:4]], "oracles": ["C12"]}
